@@ -5,6 +5,24 @@ from vc import rustlex as L
 SRC = 'crates/emmylua_code_analysis/src/'
 
 
+@R.rule('inline-owner-members-iter-mut')
+def inline_owner_members_iter_mut(text, **_):
+    """member_items.iter_mut() -> member_items.members.iter_mut(): inlining of the one-line wrapper
+    `LuaOwnerMembers::iter_mut(&mut self) -> impl Iterator<Item = (&LuaMemberKey, &mut LuaMemberIndexItem)> { self.members.iter_mut() }`
+    (its opaque `impl Iterator` return type hides the std iterator the contract is about). The rule re-reads the wrapper from the
+    repository on every run and refuses (undecided) unless its body is exactly `self.members.iter_mut()`."""
+    import os
+    from vc import extract as X
+    from vc.assemble import REPO
+    w = X.find_item(os.environ.get('VERIF_REPO', REPO), {'file': SRC + 'db_index/member/lua_owner_members.rs', 'kind': 'fn',
+                                                           'impl': 'LuaOwnerMembers', 'name': 'iter_mut'})
+    sh = X.fn_shape(w.raw)
+    body = ' '.join(w.raw[sh.body_open + 1:sh.body_close].split())
+    if body != 'self.members.iter_mut()' or 'impl Iterator<Item = (&LuaMemberKey, &mut LuaMemberIndexItem)>' not in ' '.join(w.raw.split()):
+        raise R.Undecided('inline-owner-members-iter-mut: LuaOwnerMembers::iter_mut is no longer the plain wrapper (%r)' % body)
+    return re.subn(r'\bmember_items\.iter_mut\(\)', 'member_items.members.iter_mut()', text)
+
+
 @R.rule('for-iter-mut-loop')
 def for_iter_mut_loop(text, **_):
     """for (A, B) in E.iter_mut() { BODY }  ->  let mut __itN = E.iter_mut(); loop { match __itN.next() { None => break, Some((A, B)) => { BODY } } }
@@ -12,7 +30,8 @@ def for_iter_mut_loop(text, **_):
     Iterator::next(&mut iter) { None => break, Some(val) => { let (A, B) = val; BODY } } } }`): IterMut is itself an Iterator, so
     `into_iter` is the identity (blanket `impl<I: Iterator> IntoIterator for I`). The iterator is named (N = ordinal of the loop in
     the function) so that the contract overlay can speak about it; it lives to the end of the enclosing block instead of the end of
-    the `for` statement: IterMut has no Drop impl and the borrow ends at its last use (NLL), so this is unobservable. BODY must not
+    the `for` statement: IterMut has no Drop impl and the borrow ends at its last use (NLL), so this is unobservable. A comment
+    `/*__itN:end-of-body*/` marks the end of BODY (anchor for the contract overlay). BODY must not
     contain `break`/`continue` with a value or label (checked: none of the loops rewritten here has any)."""
     n = 0
     while True:
@@ -38,7 +57,7 @@ def for_iter_mut_loop(text, **_):
                 raise R.Undecided('for-iter-mut-loop: body has break/continue')
             pat = text[toks[i + 1][1]:toks[pc][2]]
             hit = (toks[i][1], toks[bc][2],
-                   'let mut __it%d = %s; loop { match __it%d.next() { None => break, Some(%s) => {%s} } }' % (n, expr, n, pat, body))
+                   'let mut __it%d = %s; loop { match __it%d.next() { None => break, Some(%s) => {%s/*__it%d:end-of-body*/ } } }' % (n, expr, n, pat, body, n))
             break
         if not hit:
             break
@@ -147,6 +166,63 @@ for _n, _f, _k, _t in ((0, 'index_reference', 'LuaMemberKey', 'index_reference')
     _l, _p = sweep_overlay(_n, _f, _k, _t)
     REF_LOOPS.update(_l); REF_PROOF += _p
 
+MB_LISTED = '|o: LuaMemberOwner| mo_listed(old(self), file_id).contains(MemberOrOwner::Owner(o))'
+MB_LOOPS = {
+    0: '''invariant keys_ok(), 0 <= it0.index@ <= __v0@.len(),
+                    l0_inv(mem0, self.members@, mco0, self.member_current_owner@, owners@, __v0@, it0.index@) /*@C10.member.members-of-file-gone.inv*/,''',
+    1: '''invariant keys_ok(), 0 <= it.index@ <= __v1@.len(), __v1@.no_duplicates(),
+                    om_inv(t0, self.owner_members@, __v1@, it.index@, need_removed_owner@, file_id) /*@C10.member.owner-sweep.inv*/,''',
+    2: '''invariant
+                            keys_ok(), im_keys(__it0) == keys0, im_fin(__it0) == fin0, im_old(__it0) == m00, 0 <= im_pos(__it0) <= keys0.len(),
+                            items_inv(m00, fin0, keys0, im_pos(__it0), need_removed_key@, file_id) /*@C10.member.item-sweep.inv*/,
+                        ensures im_pos(__it0) >= keys0.len(), items_inv(m00, fin0, keys0, im_pos(__it0), need_removed_key@, file_id),
+                        decreases keys0.len() - im_pos(__it0)''',
+    3: '''invariant keys_ok(), nrk == need_removed_key@, 0 <= it2.index@ <= nrk.len(),
+                            forall|k: LuaMemberKey| #[trigger] member_items.members@.contains_key(k) <==> fin0.contains_key(k) && !in_pref(nrk, it2.index@, k) /*@C10.member.dead-keys-dropped.inv*/,
+                            forall|k: LuaMemberKey| #[trigger] member_items.members@.contains_key(k) ==> member_items.members@[k] == fin0[k],
+                            member_items.resolve_state == t1[ow].resolve_state,''',
+    4: '''invariant keys_ok(), nro == need_removed_owner@, 0 <= it4.index@ <= nro.len(),
+                    forall|o: LuaMemberOwner| #[trigger] self.owner_members@.contains_key(o) <==> tE.contains_key(o) && !in_pref(nro, it4.index@, o) /*@C10.member.empty-owners-dropped.inv*/,
+                    forall|o: LuaMemberOwner| #[trigger] self.owner_members@.contains_key(o) ==> self.owner_members@[o] == tE[o],''',
+}
+MB_PROOF = [
+    (r'let mut owners = HashSet::new\(\);', 'after', 'let ghost mem0 = self.members@; let ghost mco0 = self.member_current_owner@;'),
+    (r'match member_id_or_owner \{', 'before', 'proof { lemma_in_pref_step(__v0@, it0.index@ + 1); }'),
+    (r'let mut need_removed_owner = Vec::new\(\);', 'before', 'proof { lemma_in_pref_full(__v0@); }'),
+    (r'let mut need_removed_owner = Vec::new\(\);', 'after', 'let ghost t0 = self.owner_members@;'),
+    (r'for owner in __v1 \{', 'before', 'proof { lemma_om_init(t0, __v1@, file_id); }'),
+    (r'if let Some\(member_items\) = self\.owner_members\.get_mut', 'before', '''let ghost t1 = self.owner_members@; let ghost ow = owner; let ghost nro0 = need_removed_owner@;
+                let ghost n1 = it.index@ + 1;
+                proof { assert(ow == __v1@[n1 - 1]); if !t1.contains_key(ow) { lemma_om_skip(t0, t1, __v1@, n1, nro0, file_id); } }'''),
+    (r'let mut __it0 = member_items\.members\.iter_mut\(\);', 'after',
+     'let ghost keys0 = im_keys(__it0); let ghost fin0 = im_fin(__it0); let ghost m00 = im_old(__it0);'),
+    (r'match __it0\.next\(\)', 'before', 'let ghost pos0 = im_pos(__it0); let ghost nrk0 = need_removed_key@;'),
+    (r'ids\.retain\(', 'before', 'let ghost v0 = ids@;'),
+    (r'ids\.retain\([^;]*\);', 'after', '''proof {
+                                    assert(exists|keep: Seq<bool>| keep.len() == v0.len() && (forall|i: int| 0 <= i < keep.len() ==> #[trigger] keep[i] == (v0[i].file_id != file_id)) && ids@ == filter_by(v0, keep));
+                                    let keep = choose|keep: Seq<bool>| keep.len() == v0.len() && (forall|i: int| 0 <= i < keep.len() ==> #[trigger] keep[i] == (v0[i].file_id != file_id)) && ids@ == filter_by(v0, keep);
+                                    lemma_filter_by_is_filter(v0, keep, mid_not_file(file_id));
+                                }'''),
+    (r'/\*__it0:end-of-body\*/', 'before', 'proof { lemma_items_step(m00, fin0, keys0, pos0, nrk0, need_removed_key@, file_id); } /*@C10.member.item-sweep.step*/'),
+    (r'for key in need_removed_key \{', 'before', 'let ghost nrk = need_removed_key@; let ghost end0 = im_pos(__it0);'),
+    (r'for key in need_removed_key \{', 'after', 'proof { lemma_in_pref_step(nrk, it2.index@ + 1); }'),
+    (r'if member_items\.is_empty\(\)', 'before', '''proof { lemma_items_final(m00, fin0, keys0, end0, nrk, member_items.members@, file_id); }
+                    let ghost x_end = *member_items;
+                    proof { assert(owner_after(t1[ow], x_end, file_id)); } /*@C10.member.owner-swept*/'''),
+    (r'(?s)need_removed_owner\.push\(owner\);\s*\}\s*\}', 'after',
+     'proof { if t1.contains_key(ow) { lemma_om_step(t0, t1, self.owner_members@, __v1@, n1, nro0, need_removed_owner@, file_id); } } /*@C10.member.owner-sweep.step*/'),
+    (r'for owner in need_removed_owner \{', 'before', 'let ghost tE = self.owner_members@; let ghost nro = need_removed_owner@;'),
+    (r'self\.owner_members\.\w+\(&owner\);\s*\}', 'after',
+     'proof { lemma_om_final(t0, tE, __v1@, nro, self.owner_members@, ' + MB_LISTED + ', file_id); }'),
+    (r'self\.owner_members\.\w+\(&owner\);', 'before', 'proof { lemma_in_pref_step(nro, it4.index@ + 1); }'),
+    (r'\}\s*$', 'before', '''proof {
+            if member_wf(old(self).members@, old(self).member_current_owner@, old(self).owner_members@, old(self).in_filed@) {
+                lemma_member_final(old(self).members@, old(self).member_current_owner@, old(self).owner_members@, old(self).in_filed@,
+                    self.members@, self.member_current_owner@, self.owner_members@, self.in_filed@, file_id, mo_listed(old(self), file_id), ''' + MB_LISTED + ''');
+            }
+        }'''),
+]
+
 UNIT = {
     'extra_rules': [
         ('c10-metatable-closure-contract', r'\|key, _\| ([^;]*?)\);',
@@ -169,6 +245,14 @@ UNIT = {
          'Vec::into_iter yields the elements by value, each exactly once, in index order; the index is advanced before B so that '
          '`continue` in B goes on with the next element exactly as in the for loop (Verus: "for-loops do not yet support continue"). '
          'T: Copy has no Drop, so moving the drop of the vector from the end of the loop to the end of the block is unobservable'),
+        ('hashset-into-iter-vec-0', r'for (\w+) in (member_ids) \{', r'let __v0 = vx_set_into_vec(\2); for \1 in __v0 {',
+         'for x in SET { B } (SET: HashSet<T> by value) -> let __v0 = vx_set_into_vec(SET); for x in __v0 { B }: HashSet::into_iter yields '
+         'every element exactly once in unspecified order; vx_set_into_vec returns such a sequence (no duplicates, same set) - rule of unit c10_remove'),
+        ('hashset-into-iter-vec-1', r'for (\w+) in (owners) \{', r'let __v1 = vx_set_into_vec(\2); for \1 in __v1 {',
+         'as hashset-into-iter-vec-0, for the second set-driven loop of LuaMemberIndex::remove'),
+        ('c10-member-closure-contract', r'\|id\| ([^;]*?)\);',
+         r'|id: &LuaMemberId| -> (b: bool) ensures b == (id.file_id != file_id) /*@C10.member.retain-predicate*/ { \1 });',
+         'contract overlay on the closure handed to Vec::retain: parameter type, named result and `ensures` are added, body verbatim'),
         ('c10-operator-closure-contract', r'\|x\| ([^;]*?)\);',
          r'|x: &LuaOperatorId| -> (b: bool) ensures b == (*x != id) /*@C10.operator.retain-predicate*/ { \1 });',
          'contract overlay on the closure handed to Vec::retain: parameter type, named result and `ensures` are added, body verbatim'),
@@ -248,6 +332,48 @@ UNIT = {
                 !final(self).index_reference@[k]@.contains_key(file_id) && !final(self).index_reference@[k]@.is_empty() /*@C10.reference.index_reference.no-file-no-empty*/,
             forall|k: SmolStr| #[trigger] final(self).global_references@.contains_key(k) ==>
                 !final(self).global_references@[k]@.contains_key(file_id) && !final(self).global_references@[k]@.is_empty() /*@C10.reference.global_references.no-file-no-empty*/'''),
+        # 5 ---- member
+        'LuaMemberId': st('member/lua_member.rs', 'LuaMemberId', attrs='#[derive(Clone, Copy, PartialEq, Eq, Hash)]'),
+        'LuaMemberIndexItem': {'src': {'file': DB + 'member/lua_member_item.rs', 'kind': 'enum', 'name': 'LuaMemberIndexItem'}},
+        'LuaMemberOwner': {'src': {'file': DB + 'member/lua_member_owner.rs', 'kind': 'enum', 'name': 'LuaMemberOwner'}, 'attrs': '#[derive(PartialEq, Eq, Hash)]'},
+        'MemberOrOwner': {'src': {'file': DB + 'member/mod.rs', 'kind': 'enum', 'name': 'MemberOrOwner'}, 'attrs': '#[derive(PartialEq, Eq, Hash)]', 'rules': ['vis-pub']},
+        'OwnerMemberStatus': {'src': {'file': DB + 'member/lua_owner_members.rs', 'kind': 'enum', 'name': 'OwnerMemberStatus'}},
+        'LuaOwnerMembers': st('member/lua_owner_members.rs', 'LuaOwnerMembers'),
+        'LuaOwnerMembers::remove_member': {
+            'src': {'file': DB + 'member/lua_owner_members.rs', 'kind': 'fn', 'impl': 'LuaOwnerMembers', 'name': 'remove_member'},
+            'requires': 'keys_ok()', 'vac': False,
+            'ensures': 'final(self).members@ == old(self).members@.remove(*key), final(self).resolve_state == old(self).resolve_state'},
+        'LuaOwnerMembers::is_empty': {
+            'src': {'file': DB + 'member/lua_owner_members.rs', 'kind': 'fn', 'impl': 'LuaOwnerMembers', 'name': 'is_empty'},
+            'ret': 'r', 'ensures': 'r == self.members@.is_empty()'},
+        'LuaMemberIndex': st('member/mod.rs', 'LuaMemberIndex'),
+        'LuaMemberIndex::remove': rm(
+            'member/mod.rs', 'LuaMemberIndex',
+            rules=['hashset-into-iter-vec-0', 'hashset-into-iter-vec-1', 'inline-owner-members-iter-mut', ('for-iter-mut-loop', {'count': 1}),
+                   'c10-member-closure-contract'],
+            attrs='#[verifier::loop_isolation(false)]\n#[verifier::allow_complex_invariants]',
+            loops=MB_LOOPS, iter_names={0: 'it0', 1: 'it', 3: 'it2', 4: 'it4'}, proof=MB_PROOF,
+            ensures='''
+            // under the index invariant: no member id of the removed file remains in members, member_current_owner, in_filed or in any
+            // owner's item; every other entry, item and id is unchanged (order kept); emptied items/owners are dropped; invariant kept
+            member_wf(old(self).members@, old(self).member_current_owner@, old(self).owner_members@, old(self).in_filed@) ==>
+                member_removed(old(self).members@, old(self).member_current_owner@, old(self).owner_members@, old(self).in_filed@,
+                               final(self).members@, final(self).member_current_owner@, final(self).owner_members@, final(self).in_filed@, file_id)
+                && member_wf(final(self).members@, final(self).member_current_owner@, final(self).owner_members@, final(self).in_filed@) /*@C10.member.no-trace-of-removed-file*/,
+            // without assuming the invariant: what the loops do with the entries listed under the file
+            final(self).in_filed@ == old(self).in_filed@.remove(file_id) /*@C10.member.in_filed*/,
+            mem_after(old(self).members@, final(self).members@, mo_listed(old(self), file_id)) /*@C10.member.members-of-file-gone*/,
+            mem_after(old(self).member_current_owner@, final(self).member_current_owner@, mo_listed(old(self), file_id)) /*@C10.member.current-owner-of-file-gone*/,
+            om_after(old(self).owner_members@, final(self).owner_members@, ''' + MB_LISTED + ''', file_id) /*@C10.member.owner-items-of-file-gone*/'''),
+        # ---- DbIndex::remove delegates to each of them
+        'DbIndex': {'src': {'file': DB + 'mod.rs', 'kind': 'struct', 'name': 'DbIndex'}, 'rules': [('struct-fields', {'drop': ['vfs', 'emmyrc']})]},
+        'DbIndex::remove': {'src': {'file': DB + 'mod.rs', 'kind': 'fn', 'impl': 'LuaIndex for DbIndex', 'name': 'remove'},
+                            'requires': 'keys_ok()',
+                            'ensures': '''removed_metatable(&old(self).metatable_index, &final(self).metatable_index, file_id) /*@C10.DbIndex.metatable_index*/,
+            removed_global(&old(self).global_index, &final(self).global_index, file_id) /*@C10.DbIndex.global_index*/,
+            removed_operator(&old(self).operator_index, &final(self).operator_index, file_id) /*@C10.DbIndex.operator_index*/,
+            removed_reference(&old(self).references_index, &final(self).references_index, file_id) /*@C10.DbIndex.references_index*/,
+            removed_member(&old(self).members_index, &final(self).members_index, file_id) /*@C10.DbIndex.members_index*/'''},
     },
     'allow': [r'external_body', r'uninterp spec fn im_(keys|pos|old|fin)', r'external_type_specification',
               r'assume_specification<\'a, K, V, S, A: Allocator>\[ HashMap::<K, V, S, A>::iter_mut \]',
@@ -282,6 +408,25 @@ UNIT = {
          'expect': r'C10\.reference\.global_references\.empty-keys-dropped'},
         {'name': 'reference-keeps-label-references', 'item': 'LuaReferenceIndex::remove', 'pattern': r'self\.label_references\.remove\(&file_id\);', 'repl': '',
          'expect': r'C10\.reference\.no-trace-of-removed-file'},
+        {'name': 'member-keeps-members', 'item': 'LuaMemberIndex::remove', 'pattern': r'self\.members\.remove\(&member_id\);', 'repl': 'self.members.get(&member_id);',
+         'expect': r'C10\.member\.members-of-file-gone'},
+        {'name': 'member-keeps-current-owner', 'item': 'LuaMemberIndex::remove', 'pattern': r'self\.member_current_owner\.remove\(&member_id\);', 'repl': 'self.member_current_owner.get(&member_id);',
+         'expect': r'C10\.member\.members-of-file-gone'},
+        {'name': 'member-retain-negated', 'item': 'LuaMemberIndex::remove', 'pattern': r'id\.file_id != file_id', 'repl': 'id.file_id == file_id',
+         'expect': r'C10\.member\.retain-predicate'},
+        {'name': 'member-keeps-single-item-of-file', 'item': 'LuaMemberIndex::remove', 'pattern': r'if id\.file_id == file_id \{', 'repl': 'if false {',
+         'expect': r'C10\.member\.item-sweep\.step'},
+        {'name': 'member-keeps-dead-keys', 'item': 'LuaMemberIndex::remove', 'pattern': r'member_items\.remove_member\(&key\);', 'repl': 'member_items.is_empty();',
+         'expect': r'C10\.member\.dead-keys-dropped'},
+        {'name': 'member-keeps-empty-owners', 'item': 'LuaMemberIndex::remove', 'pattern': r'self\.owner_members\.remove\(&owner\);', 'repl': 'self.owner_members.get(&owner);',
+         'expect': r'C10\.member\.empty-owners-dropped'},
+        {'name': 'member-never-collects-empty-owners', 'item': 'LuaMemberIndex::remove', 'pattern': r'if member_items\.is_empty\(\) \{', 'repl': 'if member_items.is_empty() && false {',
+         'expect': r'C10\.member\.owner-sweep\.step'},
+        {'name': 'dbindex-skips-operators', 'item': 'DbIndex::remove', 'pattern': r'self\.operator_index\.remove\(file_id\);', 'repl': '', 'expect': r'C10\.DbIndex\.operator_index'},
+        {'name': 'dbindex-skips-members', 'item': 'DbIndex::remove', 'pattern': r'self\.members_index\.remove\(file_id\);', 'repl': '', 'expect': r'C10\.DbIndex\.members_index'},
+        {'name': 'dbindex-skips-references', 'item': 'DbIndex::remove', 'pattern': r'self\.references_index\.remove\(file_id\);', 'repl': '', 'expect': r'C10\.DbIndex\.references_index'},
+        {'name': 'dbindex-skips-globals', 'item': 'DbIndex::remove', 'pattern': r'self\.global_index\.remove\(file_id\);', 'repl': '', 'expect': r'C10\.DbIndex\.global_index'},
+        {'name': 'dbindex-skips-metatables', 'item': 'DbIndex::remove', 'pattern': r'self\.metatable_index\.remove\(file_id\);', 'repl': '', 'expect': r'C10\.DbIndex\.metatable_index'},
         {'name': 'operator-keeps-file-list', 'item': 'LuaOperatorIndex::remove', 'pattern': r'self\.in_filed_operator_map\.remove\(&file_id\)', 'repl': 'self.in_filed_operator_map.get(&file_id)',
          'expect': r'C10\.operator\.in_filed_operator_map'},
     ],
